@@ -444,7 +444,21 @@ class RefMap:
         adms = self.admissions(p)
         mine = [a for a in adms if a.rule.method_ok(method) and (websocket is None or a.rule.websocket == websocket)]
         direct_def = [a for a in mine if a.definite and a.kind != "M"]
-        return {a.key for a in mine if a.kind != "O" and not any(better(d.rule, a.rule) is True for d in direct_def)}
+        out = {a.key for a in mine if a.kind != "O" and not any(better(d.rule, a.rule) is True for d in direct_def)}
+        # alias canonicalisation: an alias rule may carry defaults of its own that the canonical rule of the
+        # endpoint does not have (werkzeug's documented example: Rule('/index.html', alias=True) next to
+        # Rule('/')); following the alias redirect then denotes the same endpoint with the arguments the
+        # canonical rule knows - the alias's own extra defaults are, by construction, not expressible there
+        for a in mine:
+            if a.kind == "O" or not a.rule.alias:
+                continue
+            a_args = set(a.args)
+            own = set(a.rule.defaults or ())
+            for c in self.rules:
+                c_args = {n for n, _p, _c, _f in c.vars} | set(c.defaults or ())
+                if (not c.alias and c.endpoint == a.rule.endpoint and c_args < a_args and a_args - c_args <= own):
+                    out.add((a.rule.endpoint, freeze({k: v for k, v in a.args.items() if k in c_args})))
+        return out
 
 
 def judge(ex: Expect, outcome, url_prefix: str = "http://h"):
